@@ -99,7 +99,10 @@ impl<'a> SectionsBuilder<'a> {
 
         let id = self.builder.id();
         self.process_blocks(range.start + 1..range.end, blocks);
-        self.builder.set_id(id)
+        self.builder.set_id(id);
+        // back on the section itself: whatever comes next is its sibling, even if the
+        // section's content produced no node at all (e.g. only a list of empty items)
+        self.builder.set_insert(false);
     }
 
     pub fn section_block(&mut self, block: &DocumentBlock) {
